@@ -223,11 +223,14 @@ pub struct C18Case {
     pub fail_first_merge: bool,
     /// the n-th fsync issued by the interval-sync task fails with EIO (0: none)
     pub fail_sync_nth: usize,
+    /// the trigger is crossed AGAIN right after the merge of tick k (and once more a tick later):
+    /// merges are expected at ticks k, k+1 and k+2
+    pub recross: bool,
 }
 
 impl C18Case {
     fn to_json(&self) -> Value {
-        json!({"engine": "vtime", "kind": "c18", "policy": format!("{:?}", self.policy), "trigger": format!("{:?}", self.trig), "k": self.k, "interval_ms": self.interval_ms, "jitter": self.jitter, "sync": match self.sync { SyncS::None => json!("none"), SyncS::Always => json!("always"), SyncS::Interval(d) => json!(d) }, "horizon": self.horizon, "fail_first_merge": self.fail_first_merge, "fail_sync_nth": self.fail_sync_nth})
+        json!({"engine": "vtime", "kind": "c18", "policy": format!("{:?}", self.policy), "trigger": format!("{:?}", self.trig), "k": self.k, "interval_ms": self.interval_ms, "jitter": self.jitter, "sync": match self.sync { SyncS::None => json!("none"), SyncS::Always => json!("always"), SyncS::Interval(d) => json!(d) }, "horizon": self.horizon, "fail_first_merge": self.fail_first_merge, "fail_sync_nth": self.fail_sync_nth, "recross": self.recross})
     }
     fn from_json(v: &Value) -> Option<C18Case> {
         Some(C18Case {
@@ -240,6 +243,7 @@ impl C18Case {
             horizon: v["horizon"].as_u64()? as usize,
             fail_first_merge: v["fail_first_merge"].as_bool().unwrap_or(false),
             fail_sync_nth: v["fail_sync_nth"].as_u64().unwrap_or(0) as usize,
+            recross: v["recross"].as_bool().unwrap_or(false),
         })
     }
 }
@@ -362,7 +366,7 @@ pub fn c18_case(dir: &Path, c: &C18Case) -> Result<String, V> {
                     return Err(mach(format!("held at {}", at)));
                 }
                 tick_times.push(iohook::vnow_ms());
-                if tick == c.k && matches!(c.trig, Trig::DeadBytes | Trig::Frag | Trig::Both) {
+                if (tick == c.k || (c.recross && (tick == c.k + 1 || tick == c.k + 2))) && matches!(c.trig, Trig::DeadBytes | Trig::Frag | Trig::Both) {
                     // cross the trigger now: two more overwrites -> 81 dead bytes, fragmentation 0.75
                     h.set(b("k"), b("v")).map_err(|e| mach(e.to_string()))?;
                     h.set(b("k"), b("v")).map_err(|e| mach(e.to_string()))?;
@@ -531,7 +535,7 @@ fn c18_cases(tier: Tier) -> Vec<C18Case> {
                             if policy == Policy::Never && jitter != 0.3 {
                                 continue;
                             }
-                            v.push(C18Case { policy, trig, k, interval_ms, jitter, sync, horizon, fail_first_merge: false, fail_sync_nth: 0 });
+                            v.push(C18Case { policy, trig, k, interval_ms, jitter, sync, horizon, fail_first_merge: false, fail_sync_nth: 0, recross: false });
                         }
                     }
                 }
@@ -543,17 +547,27 @@ fn c18_cases(tier: Tier) -> Vec<C18Case> {
         for interval_ms in [1000u64, 180_000] {
             for trig in [Trig::DeadBytes, Trig::Frag] {
                 for sync in [SyncS::None, SyncS::Interval(interval_ms / 3)] {
-                    v.push(C18Case { policy: Policy::Always, trig, k, interval_ms, jitter: 0.3, sync, horizon, fail_first_merge: true, fail_sync_nth: 0 });
+                    v.push(C18Case { policy: Policy::Always, trig, k, interval_ms, jitter: 0.3, sync, horizon, fail_first_merge: true, fail_sync_nth: 0, recross: false });
+                }
+            }
+        }
+    }
+    // the trigger is crossed again right after a merge: every tick from k to k+2 must merge
+    for k in [1usize, 2] {
+        for interval_ms in [1000u64, 180_000] {
+            for jitter in [0.0, 0.1, 0.3, 1.0] {
+                for trig in [Trig::DeadBytes, Trig::Frag] {
+                    v.push(C18Case { policy: Policy::Always, trig, k, interval_ms, jitter, sync: SyncS::None, horizon, fail_first_merge: false, fail_sync_nth: 0, recross: true });
                 }
             }
         }
     }
     // sync strategies on their own (merge never): interval 1 ms, 500 ms, 10 min
     for d in [1u64, 500, 600_000] {
-        v.push(C18Case { policy: Policy::Never, trig: Trig::None, k: 1, interval_ms: d * 4, jitter: 0.0, sync: SyncS::Interval(d), horizon: tier.pick(5, 10), fail_first_merge: false, fail_sync_nth: 0 });
+        v.push(C18Case { policy: Policy::Never, trig: Trig::None, k: 1, interval_ms: d * 4, jitter: 0.0, sync: SyncS::Interval(d), horizon: tier.pick(5, 10), fail_first_merge: false, fail_sync_nth: 0, recross: false });
         // a background fsync that fails must not end the periodic sync: the next interval syncs again
         for nth in [1usize, 2, 3] {
-            v.push(C18Case { policy: Policy::Never, trig: Trig::None, k: 1, interval_ms: d * 4, jitter: 0.0, sync: SyncS::Interval(d), horizon: tier.pick(5, 10), fail_first_merge: false, fail_sync_nth: nth });
+            v.push(C18Case { policy: Policy::Never, trig: Trig::None, k: 1, interval_ms: d * 4, jitter: 0.0, sync: SyncS::Interval(d), horizon: tier.pick(5, 10), fail_first_merge: false, fail_sync_nth: nth, recross: false });
         }
     }
     v
@@ -577,13 +591,15 @@ pub struct C17Case {
     pub cycles: usize,
     /// every file-system call the DROP itself issues (on the dropping thread) fails with EIO
     pub drop_fault: bool,
+    /// merge policy: 0 always, 1 a window that contains the current hour, 2 a window that does not
+    pub window: u8,
 }
 impl C17Case {
     fn to_json(&self) -> Value {
-        json!({"engine": "vtime", "kind": "c17", "at": self.at, "inner": self.inner, "tick": self.tick, "trigger_met": self.trigger_met, "merge_never": self.merge_never, "sync_interval": self.sync_interval, "cycles": self.cycles, "drop_fault": self.drop_fault})
+        json!({"engine": "vtime", "kind": "c17", "at": self.at, "inner": self.inner, "tick": self.tick, "trigger_met": self.trigger_met, "merge_never": self.merge_never, "sync_interval": self.sync_interval, "cycles": self.cycles, "drop_fault": self.drop_fault, "window": self.window})
     }
     fn from_json(v: &Value) -> Option<C17Case> {
-        Some(C17Case { at: v["at"].as_str()?.to_string(), inner: v["inner"].as_u64()? as usize, tick: v["tick"].as_u64()? as usize, trigger_met: v["trigger_met"].as_bool()?, merge_never: v["merge_never"].as_bool()?, sync_interval: v["sync_interval"].as_bool()?, cycles: v["cycles"].as_u64()? as usize, drop_fault: v["drop_fault"].as_bool().unwrap_or(false) })
+        Some(C17Case { at: v["at"].as_str()?.to_string(), inner: v["inner"].as_u64()? as usize, tick: v["tick"].as_u64()? as usize, trigger_met: v["trigger_met"].as_bool()?, merge_never: v["merge_never"].as_bool()?, sync_interval: v["sync_interval"].as_bool()?, cycles: v["cycles"].as_u64()? as usize, drop_fault: v["drop_fault"].as_bool().unwrap_or(false), window: v["window"].as_u64().unwrap_or(0) as u8 })
     }
 }
 
@@ -594,6 +610,10 @@ fn c17_conf(dir: &Path, c: &C17Case, cache: usize) -> Config {
     conf.merge_trigger_dead_bytes(if c.trigger_met { 0 } else { u64::MAX }).merge_trigger_fragmentation(1.0);
     if c.merge_never {
         conf.merge_policy(VerifMergePolicy::Never);
+    } else if c.window > 0 {
+        let h = chrono::Local::now().hour();
+        let w = if c.window == 1 { h } else { (h + 12) % 24 };
+        conf.merge_policy(VerifMergePolicy::Window { start: w, end: w });
     }
     if c.sync_interval {
         conf.sync(SyncStrategy::IntervalMs(1_300_000));
@@ -787,7 +807,7 @@ pub fn c17_case(dir: &Path, c: &C17Case) -> Result<String, V> {
             }
             Err(e) => return Err(("directory-cannot-be-reopened-at-once".into(), format!("further re-open: {}", e))),
         }
-        Ok(format!("{}{}{} drop_waited={} worker_exit<{}ms", if c.drop_fault { "failing-drop:" } else { "" }, c.at, if c.at == "inner" { format!("#{}", c.inner) } else { String::new() }, drop_waited, took.as_millis() + 1))
+        Ok(format!("{}{}{}{} drop_waited={} worker_exit<{}ms", if c.drop_fault { "failing-drop:" } else { "" }, match c.window { 1 => "window-open:", 2 => "window-closed:", _ => "" }, c.at, if c.at == "inner" { format!("#{}", c.inner) } else { String::new() }, drop_waited, took.as_millis() + 1))
     })();
     ctl_disable();
     iohook::vtime_hold(false);
@@ -846,11 +866,18 @@ fn c17_cases(tier: Tier) -> Vec<C17Case> {
     for (trigger_met, merge_never) in [(true, false), (false, false), (false, true)] {
         for sync_interval in [false, true] {
             for tick in 1..=3usize {
-                let base = C17Case { at: String::new(), inner: 0, tick, trigger_met, merge_never, sync_interval, cycles: 0, drop_fault: false };
+                let base = C17Case { at: String::new(), inner: 0, tick, trigger_met, merge_never, sync_interval, cycles: 0, drop_fault: false, window: 0 };
                 v.push(C17Case { at: "sleeping".into(), cycles: if tick == 1 { cycles } else { 0 }, ..base.clone() });
                 // the same drop with every file-system call of the drop itself failing (an error
                 // inside drop must not leave the store half closed)
                 v.push(C17Case { at: "sleeping".into(), drop_fault: true, ..base.clone() });
+                // the merge window (open now / closed now) instead of "always"
+                if !merge_never && tick <= 2 {
+                    for window in [1u8, 2] {
+                        v.push(C17Case { at: "sleeping".into(), window, cycles: if tick == 1 { cycles } else { 0 }, ..base.clone() });
+                        v.push(C17Case { at: "bg:merge:tick".into(), window, ..base.clone() });
+                    }
+                }
                 if !merge_never {
                     v.push(C17Case { at: "bg:merge:tick".into(), ..base.clone() });
                     if trigger_met {
